@@ -710,7 +710,103 @@ func c21Case(r *vu.RNG, kmax int, malformed, wrongNumber int) string {
 		c21Ops(r, parents, n, self, head, malformed, wrongNumber))
 }
 
+// all parent arrays for k blocks
+func c21AllTrees(k int) [][]uint64 {
+	res := [][]uint64{{}}
+	for i := 1; i < k; i++ {
+		var next [][]uint64
+		for _, p := range res {
+			for j := 0; j < i; j++ {
+				next = append(next, append(append([]uint64{}, p...), uint64(j)))
+			}
+		}
+		res = next
+	}
+	return res
+}
+
+// exhaustive small scope (thorough tier): every tree with <= 3 blocks (4 blocks sampled), 3
+// voters (voter 2 is the node itself and votes directly), every assignment of {no vote, one
+// vote, two different votes} per voter and stage, with and without a pending change at height 1,
+// followed by the four queries.
+func c21Exhaustive(r *vu.RNG, budget int, emit func(string)) {
+	count := 0
+	for k := 1; k <= 4; k++ {
+		type opt []int
+		opts := []opt{{}}
+		for b := 0; b < k; b++ {
+			opts = append(opts, opt{b})
+		}
+		for b1 := 0; b1 < k; b1++ {
+			for b2 := b1 + 1; b2 < k; b2++ {
+				opts = append(opts, opt{b1, b2})
+			}
+		}
+		own := []opt{{}}
+		for b := 0; b < k; b++ {
+			own = append(own, opt{b})
+		}
+		for _, parents := range c21AllTrees(k) {
+			best := 0
+			for b := 0; b < k; b++ {
+				if c21Depth(parents, b) > c21Depth(parents, best) {
+					best = b
+				}
+			}
+			// slots: pv voter0, pv voter1, pc voter0, pc voter1 over opts; pv self, pc self over own
+			idx := make([]int, 6)
+			lens := []int{len(opts), len(opts), len(opts), len(opts), len(own), len(own)}
+			for {
+				keep := k < 4 || r.Intn(40) == 0
+				if keep {
+					var ops []string
+					for s := 0; s < 4; s++ {
+						st := byte('p')
+						if s >= 2 {
+							st = 'c'
+						}
+						for _, b := range opts[idx[s]] {
+							ops = append(ops, fmt.Sprintf("m%c%x.%x.0.0", st, s%2, b))
+						}
+					}
+					for _, b := range own[idx[4]] {
+						ops = append(ops, fmt.Sprintf("op.%x", b))
+					}
+					for _, b := range own[idx[5]] {
+						ops = append(ops, fmt.Sprintf("oc.%x", b))
+					}
+					ops = append(ops, "G", "P", "B", "F")
+					nc := "-"
+					if count%2 == 1 {
+						nc = "1"
+					}
+					emit(fmt.Sprintf("g %s 3 2 0 %x %s %s", c21Join(parents), best, nc, strings.Join(ops, ",")))
+					count++
+					if count >= budget {
+						return
+					}
+				}
+				s := 0
+				for s < 6 {
+					idx[s]++
+					if idx[s] < lens[s] {
+						break
+					}
+					idx[s] = 0
+					s++
+				}
+				if s == 6 {
+					break
+				}
+			}
+		}
+	}
+}
+
 func c21Gen(r *vu.RNG, n int, emit func(string)) {
+	if vu.Thorough() {
+		c21Exhaustive(r.Fork(), 400000, emit)
+	}
 	for i := 0; i < n; i++ {
 		switch r.Intn(10) {
 		case 0, 1, 2, 3, 4: // mostly valid
